@@ -33,7 +33,7 @@ RULE = (
     "round trip through a file after a restart or one minimal-format round trip"
 )
 LEVEL_TEXT = (
-    "Seeded stateful histories through the storage seam with process restarts (only files survive), randomised format threshold, ZANJ layout knobs and clock; every loaded dataset is compared value by value (canonicalised arrays, config fields, collected-metadata counts) with a plain-data model recorded before the operation. Inputs include hand-assembled datasets (stale counts, stripped or collected metadata, shared and re-ordered maze objects of reloaded datasets), grids wider than 128 cells kept cheap, endpoint lists long enough to be stored as external archive members, collections built with shared and with copied member configurations, every format written through the disk seam, saved forms loaded twice; one interpreter slot in three runs under python -O. Sampling, not proof.",
+    "Seeded stateful histories through the storage seam with process restarts (only files survive), randomised format threshold, ZANJ layout knobs and clock; every loaded dataset is compared value by value (canonicalised arrays, config fields, collected-metadata counts) with a plain-data model recorded before the operation. Inputs include hand-assembled datasets (stale counts, stripped or collected metadata, shared and re-ordered maze objects of reloaded datasets), grids wider than 128 cells kept cheap, endpoint lists long enough to be stored as external archive members, collections built with shared and with copied member configurations, every format written through the disk seam, saved forms loaded twice, the saved form of an equal donor dataset edited everywhere (entries, items, array contents) before the round trip; one interpreter slot in three runs under python -O. Sampling, not proof.",
     "Trusted: stdlib zipfile/NumPy; the storage seam is fault-free here (faults are C11's business).",
 )
 
@@ -254,6 +254,25 @@ def st_segment(ops, base_dir, clock, files_model):
                     before = full_model(ds)
                     fn = {"serialize": "serialize", "full": "_serialize_full", "minimal": "_serialize_minimal", "soln_cat": "_serialize_minimal_soln_cat"}[how]
                     what = f"load({fn}()) of {'collection' if is_coll else 'dataset'} len={len(ds)}"
+                    if not is_coll and len(ds) > 0 and op[1].endswith(("1", "4", "7")):
+                        # somebody else in this process asked for the saved form of an equal dataset (own copies of every maze
+                        # and of the configuration) and edited what it got, everywhere: this dataset's round trip is its own
+                        import copy
+
+                        from maze_dataset import SolvedMaze
+
+                        try:
+                            donor = MazeDataset(
+                                cfg=copy.deepcopy(ds.cfg),
+                                mazes=[SolvedMaze(connection_list=z.connection_list.copy(), solution=z.solution.copy(), generation_meta=copy.deepcopy(z.generation_meta)) for z in ds.mazes],
+                                generation_metadata_collected=copy.deepcopy(ds.generation_metadata_collected),
+                            )
+                            _ds.scramble(getattr(donor, fn)())
+                            bump("probe_donor_saved_form_edited")
+                        except Exception:  # noqa: BLE001 - the donor's own troubles are not this dataset's
+                            bump("donor_failed")
+                        if full_model(ds) != before:
+                            return {"violation": ["C05.source-disturbed", f"{what}: editing the saved form of ANOTHER, equal dataset object changed this dataset", None], "files": files, "events": events, "stats": stats}
                     try:
                         data = getattr(ds, fn)()
                         loaded = type(ds).load(data)
